@@ -6,8 +6,8 @@ from assemble import Item
 
 NAME = 'builtins'
 PRELUDE = ['base', 'bigint', 'float', 'rational', 'opaque']
-SPECS = ['builtins.rs']
-DEPS = ['nint', 'nnum', 'coretypes']
+SPECS = ['builtins.rs', 'arith.rs', 'realarith.rs']
+DEPS = ['nint', 'nnum', 'nnumcmp', 'coretypes']
 NEEDS_EXPANDED = True
 
 L = 'src/lib.rs'
@@ -17,6 +17,11 @@ P = ['C06', 'C07']
 
 def two_nums(name, fname, ensures, ret='NNum'):
     return Item(id=fname, source=L, locator='(closure)', closure_as_fn=dict(name=name, fname=fname, params=NN, ret=ret),
+                ensures=ensures, props=P)
+
+
+def one_num(name, fname, ensures):
+    return Item(id=fname, source=L, locator='(closure)', closure_as_fn=dict(name=name, fname=fname, params=['NNum'], ret='NRes<Obj>'),
                 ensures=ensures, props=P)
 
 
@@ -45,4 +50,11 @@ ITEMS = [
              [('value', '(P0@ is Int && P1@ is Int && 0 <= P1@->Int_0 <= usize::MAX) ==> r@ == NumV::Int(P0@->Int_0 * pow2(P1@->Int_0 as nat))')]),
     two_nums('>>', 'builtin_shr',
              [('value', '(P0@ is Int && P1@ is Int && 0 <= P1@->Int_0 <= usize::MAX) ==> r@ == NumV::Int(floor_div(P0@->Int_0, pow2(P1@->Int_0 as nat)))')]),
+    one_num('abs', 'builtin_abs', [('int', 'P0@ is Int ==> (r is Ok && r->Ok_0 is Num && r->Ok_0->Num_0@ == NumV::Int(int_abs(P0@->Int_0)))')]),
+    one_num('signum', 'builtin_signum', [('int', 'P0@ is Int ==> (r is Ok && r->Ok_0 is Num && r->Ok_0->Num_0@ == NumV::Int(int_signum(P0@->Int_0)))')]),
+    one_num('even', 'builtin_even', [('parity_by_floor_remainder', 'P0@ is Int ==> (r is Ok && r->Ok_0 is Num && r->Ok_0->Num_0@ == NumV::Int(if floor_mod(P0@->Int_0, 2) == 0 { 1int } else { 0int }))')]),
+    one_num('odd', 'builtin_odd', [('parity_by_floor_remainder', 'P0@ is Int ==> (r is Ok && r->Ok_0 is Num && r->Ok_0->Num_0@ == NumV::Int(if floor_mod(P0@->Int_0, 2) == 1 { 1int } else { 0int }))')]),
+    one_num('floor', 'builtin_floor', [('exact', 'match round_family(P0@, |x: real| x.floor()) { Some(v) => r is Ok && r->Ok_0 is Num && r->Ok_0->Num_0@ == v, None => r is Err }')]),
+    one_num('ceil', 'builtin_ceil', [('exact', 'match round_family(P0@, |x: real| real_ceil(x)) { Some(v) => r is Ok && r->Ok_0 is Num && r->Ok_0->Num_0@ == v, None => r is Err }')]),
+    one_num('round', 'builtin_round', [('exact', 'match round_family(P0@, |x: real| real_round(x)) { Some(v) => r is Ok && r->Ok_0 is Num && r->Ok_0->Num_0@ == v, None => r is Err }')]),
 ]
